@@ -2,6 +2,7 @@ package c19
 
 import (
 	"fmt"
+	"sort"
 	"strings"
 	"testing"
 
@@ -286,6 +287,8 @@ func RunDriverCase(c DriverCase) (res stats.Result) {
 		answered bool // the command processor has sent its PageMigrationRspToDriver
 	}
 	var migReqs []*migReq
+	// which command processors were shot down / restarted for the request in progress
+	shotDown, restarted, wantRestarts := map[uint64]int{}, map[uint64]int{}, map[uint64]int{}
 	for g := 0; g < c.GPUs; g++ {
 		g := g
 		var replies []cpReply
@@ -301,12 +304,14 @@ func RunDriverCase(c DriverCase) (res stats.Result) {
 					case *protocol.RDMADrainCmdFromDriver:
 						rsp = protocol.NewRDMADrainRspToDriver(cpPorts[g], gpuPort)
 					case *protocol.ShootDownCommand:
+						shotDown[uint64(g+1)]++
 						rsp = protocol.NewShootdownCompleteRsp(cpPorts[g], gpuPort)
 					case *protocol.PageMigrationReqToCP:
 						mig = len(migReqs)
 						migReqs = append(migReqs, &migReq{gpu: g + 1, msg: m})
 						rsp = protocol.NewPageMigrationRspToDriver(cpPorts[g], gpuPort)
 					case *protocol.GPURestartReq:
+						restarted[uint64(g+1)]++
 						rsp = protocol.NewGPURestartRsp(cpPorts[g], gpuPort)
 					case *protocol.RDMARestartCmdFromDriver:
 						rsp = protocol.NewRDMARestartRspToDriver(cpPorts[g], gpuPort)
@@ -482,6 +487,28 @@ func RunDriverCase(c DriverCase) (res stats.Result) {
 						problems = append(problems, fmt.Sprintf("migration %d: response names virtual pages %x (RspToTop=%v), the request was for %x", step, rsp.VAddr, rsp.RspToTop, vas))
 					}
 					judge(step)
+					// the GPUs that are quiesced (shot down: caches and TLBs flushed) and restarted for a
+					// migration are exactly the GPUs the request names as accessing the page, once each
+					{
+						var gl []uint64
+						bad := false
+						for g, n := range shotDown {
+							gl = append(gl, g)
+							if n != 1 {
+								bad = true
+							}
+						}
+						sort.Slice(gl, func(i, j int) bool { return gl[i] < gl[j] })
+						if bad || !sameSet(gl, current.CurrAccessingGPUs) {
+							problems = append(problems, fmt.Sprintf("migration %d: the request names GPUs %v as accessing the page, the GPUs shot down (GPU: times) were %v", step, current.CurrAccessingGPUs, shotDown))
+						}
+						// (restart requests may still be on their way to slow command processors when the
+						// MMU is answered: they are compared at the end of the run)
+						for _, g := range current.CurrAccessingGPUs {
+							wantRestarts[g]++
+						}
+					}
+					shotDown = map[uint64]int{}
 					// what mmu.Comp.processMigrationReturn does (for every page of the request)
 					for _, va := range vas {
 						if pg, ok := pt.Find(pid, va); ok {
@@ -560,6 +587,12 @@ func RunDriverCase(c DriverCase) (res stats.Result) {
 	if err := engine.Run(); err != nil {
 		res.Violation = "engine error: " + err.Error()
 		return
+	}
+	// every GPU is restarted as often as it was named as accessing a migrated page
+	for g := uint64(1); g <= uint64(c.GPUs); g++ {
+		if restarted[g] != wantRestarts[g] {
+			problems = append(problems, fmt.Sprintf("over the whole run GPU %d was named %d time(s) as accessing a migrating page (and shot down for it), but restarted %d time(s)", g, wantRestarts[g], restarted[g]))
+		}
 	}
 
 	// classification
